@@ -253,17 +253,53 @@ pub fn child_main(args: &[String]) -> i32 {
     }
 }
 
-fn run_b(n: usize, key_seed: [u8; 32], threads: usize, calls: usize, procs: usize, pcalls: usize, st: &mut Stats) -> Result<Vec<(String, [u8; 40])>, (String, String)> {
-    let plan = plan_b(n, key_seed, threads, calls, 0xb);
-    let salts = if n == 512 {
-        let keys = signers::regenerate_keys::<V512>(&plan).map_err(|u| (format!("keygen512 failed: {}", u.signature()), String::new()))?;
-        collect::<V512>(&plan, keys, 0, st)?
+/// length of the single-thread long history of sub-check (b)
+fn long_calls(n: usize, calls: usize) -> usize {
+    // quick (calls = 64): 3000 / 1500; thorough (calls = 1000): 20000 / 8000
+    let base = if calls >= 1000 { 20000 } else { 3000 };
+    if n == 512 {
+        base
     } else {
-        let keys = signers::regenerate_keys::<V1024>(&plan).map_err(|u| (format!("keygen1024 failed: {}", u.signature()), String::new()))?;
-        collect::<V1024>(&plan, keys, 0, st)?
-    };
+        base * 2 / 5 + 300
+    }
+}
+
+/// threads phase, then (on this process's main thread) a clone phase - the key
+/// has signed before, is cloned, and original and copy sign alternately - and a
+/// long single-thread history on one message
+fn run_b_inproc<V: Variant>(plan: &WorldPlan, long: usize, st: &mut Stats) -> Result<Vec<(String, [u8; 40])>, (String, String)> {
+    let keys = signers::regenerate_keys::<V>(plan).map_err(|u| (format!("keygen{} failed: {}", V::N, u.signature()), String::new()))?;
+    let salts = collect::<V>(plan, keys.clone(), 0, st)?;
     let mut all: Vec<(String, [u8; 40])> = salts.into_iter().map(|(tag, s, _)| (format!("thread{}-call{}", (tag >> 12) & 0xff, tag & 0xfff), s)).collect();
     st.add("b.thread_salts", all.len() as u64);
+    let msg = b"the same message, signed again and again".to_vec();
+    let real = world::SignPlan { stream_seed: 0, mode: None, fire: vec![] };
+    let mut sign = |k: &V::Sk, label: String, all: &mut Vec<(String, [u8; 40])>| {
+        if let (Ok(sig), _) = world::sign_sim::<V>(k, &msg, &real, None) {
+            if let Some(s) = salt_of(&V::sig_to_bytes(&sig)) {
+                all.push((label, s));
+            }
+        }
+    };
+    let sk = &keys[0].0;
+    sign(sk, "clone-phase-before".into(), &mut all);
+    let copy = sk.clone();
+    for i in 0..8 {
+        sign(sk, format!("clone-phase-original-{}", i), &mut all);
+        sign(&copy, format!("clone-phase-copy-{}", i), &mut all);
+    }
+    st.add("b.clone_phase_salts", 17);
+    for i in 0..long {
+        sign(sk, format!("long-history-{}", i), &mut all);
+    }
+    st.add("b.long_history_salts", long as u64);
+    Ok(all)
+}
+
+fn run_b(n: usize, key_seed: [u8; 32], threads: usize, calls: usize, procs: usize, pcalls: usize, st: &mut Stats) -> Result<Vec<(String, [u8; 40])>, (String, String)> {
+    let plan = plan_b(n, key_seed, threads, calls, 0xb);
+    let long = long_calls(n, calls);
+    let mut all = if n == 512 { run_b_inproc::<V512>(&plan, long, st)? } else { run_b_inproc::<V1024>(&plan, long, st)? };
     // fresh processes (P1)
     let exe = std::env::current_exe().map_err(|e| ("harness: no current exe".to_string(), e.to_string()))?;
     let children: Vec<_> = (0..procs)
@@ -540,7 +576,7 @@ pub fn check(tier: Tier, seed: u64) -> i32 {
         return 2;
     }
     evaluate_a(&mut rep);
-    rep.rule = "a case is one sign call whose salt (bytes 1..41 of the encoded signature) enters the history: (a) under simulator-owned uniform entropy, 1-6 baton-scheduled threads x 4-15 calls over two shared keys with half of the calls on one common message, some with forced retries; (b) under the real thread_rng, threads x calls and fresh child processes on one message and one key; every observed salt is non-trivial; distinct = distinct salt values".into();
+    rep.rule = "a case is one sign call whose salt (bytes 1..41 of the encoded signature) enters the history: (a) under simulator-owned uniform entropy, 1-6 baton-scheduled threads x 4-15 calls over two shared keys with half of the calls on one common message, some with forced retries; (b) under the real thread_rng, threads x calls, fresh child processes, a clone phase (a key that has signed is cloned, original and copy sign alternately) and a long single-thread history (3000 / 1500 calls in quick, 20000 / 8300 in thorough) on one message and one key; every observed salt is non-trivial; distinct = distinct salt values".into();
     rep.assumptions = vec![
         "(a) masks, by construction, a generator that is not the hooked one; (b) exists for that case and is not bit-replayable (it observes real OS entropy); its verdict depends on the values only through collisions (probability < 2^-200)".into(),
         "bit balance: every one of the 320 salt bit positions must be set in N/2 +- 6.3*sqrt(N)/2 of N >= 2000 salts".into(),
